@@ -218,6 +218,8 @@ def run_identity(case):
     from .dotgraph import split_action
     model = tatsu.compile("start = x:'a' {'b'} ;")
 
+    import dataclasses
+
     class Plain:
         pass
 
@@ -225,8 +227,34 @@ def run_identity(case):
         def start(self, ast, *a, **k):
             return ('TAG', dict(ast))
 
+    @dataclasses.dataclass(frozen=True)
+    class Equal:                                   # e1 == e2 and hash(e1) == hash(e2): the tag takes no part in comparisons
+        tag: str = dataclasses.field(default='', compare=False)
+
+        def start(self, ast, *a, **k):
+            return ('TAG' + self.tag, dict(ast))
+
+    @dataclasses.dataclass
+    class Unhashable:                              # eq without frozen: __hash__ is None
+        n: int = 0
+
+        def start(self, ast, *a, **k):
+            return ('TAG', dict(ast))
+
+    class Falsy:
+        def __len__(self):
+            return 0
+
+        def start(self, ast, *a, **k):
+            return ('TAG', dict(ast))
+
     def make(name):
-        return Plain() if name.startswith('p') else Tag()
+        if name.startswith('e'):
+            return Equal('A' if name == 'e1' else 'B')
+        return {'p': Plain, 't': Tag, 'u': Unhashable, 'f': Falsy}[name[0]]()
+
+    def beh(name):
+        return 'plain' if name.startswith('p') else 'tagA' if name == 'e1' else 'tagB' if name == 'e2' else 'tag'
     objs, oldid, bad, reused, steps = {}, {}, [], 0, 0
     for label, st in case['path']:
         act, args = split_action(label)
@@ -253,9 +281,12 @@ def run_identity(case):
             gc.collect()
         elif act == 'Parse':
             o = args[0]
-            r = model.parse('a b', semantics=objs[o])
-            got = 'tag' if isinstance(r, tuple) and r and r[0] == 'TAG' else 'plain'
-            want_beh = 'plain' if o.startswith('p') else 'tag'
+            try:
+                r = model.parse('a b', semantics=objs[o])
+                got = {'TAG': 'tag', 'TAGA': 'tagA', 'TAGB': 'tagB'}.get(r[0], 'plain') if isinstance(r, tuple) and r else 'plain'
+            except Exception as e:  # noqa: BLE001
+                got = f'raised {type(e).__name__}: {str(e)[:80]}'
+            want_beh = beh(o)
             if got != want_beh:
                 bad.append({'step': steps, 'object': o, 'expected': want_beh, 'observed': got,
                             'history': [lbl for lbl, _s in case['path'][:steps]]})
